@@ -196,11 +196,201 @@ def check_cases(ctx, cases, exhaustive_tag=None):
             ctx.note_drift(case)
 
 
+# ----------------------------------------------------------------------------- decimal ranges
+def lit(neg, coeff, frac):
+    return ("n" if neg else "p") + "%de%d" % (coeff, frac)
+
+
+def lit_of_text(text):
+    """'-1.50' -> literal code"""
+    neg = text.startswith("-")
+    body = text.lstrip("-")
+    ip, _, fp = body.partition(".")
+    return lit(neg, int(ip + fp), len(fp))
+
+
+def lit_value(code):
+    from fractions import Fraction
+    c, f = code[1:].split("e")
+    v = Fraction(int(c), 10 ** int(f))
+    return -v if code[0] == "n" else v
+
+
+def ditem_str(it):
+    if it[0] == "c":
+        return "c%s:%s" % (it[1], it[2])
+    return it[0] + it[1]
+
+
+def dec_str(d):
+    if d is None:
+        return "n"
+    t = d.as_tuple()
+    if not isinstance(t.exponent, int):
+        return "special"
+    return "%d:%d:%d" % (t.sign, int("".join(str(x) for x in t.digits) or "0"), t.exponent)
+
+
+def impl_drange(text, value_texts):
+    from cutplace import errors, ranges
+    import decimal
+    try:
+        r = ranges.DecimalRange(text)
+    except Exception as error:  # noqa
+        return core.classify_exception(error), None
+    bits = ""
+    for v in value_texts:
+        try:
+            r.validate("x", v)
+            bits += "1"
+        except errors.RangeValueError:
+            bits += "0"
+        except decimal.InvalidOperation:
+            bits += "!"
+    if r.items is None:
+        return "ok", None
+    return "ok", {"items": ";".join("%s/%s" % (dec_str(a), dec_str(b)) for a, b in r.items) or "~", "prec": r.precision, "scale": r.scale,
+                  "lo": dec_str(r.lower_limit), "hi": dec_str(r.upper_limit), "bits": bits}
+
+
+def probe_lits(items, rnd):
+    """every limit, its neighbours one unit in the last place and one place finer, the same number at another scale"""
+    out = []
+    for it in items:
+        for code in it[1:]:
+            neg, (c, f) = code[0] == "n", [int(x) for x in code[1:].split("e")]
+            signed = -c if neg else c
+            for delta, extra in ((0, 0), (1, 0), (-1, 0), (1, 1), (-1, 1), (0, 2)):
+                v = signed * 10 ** extra + delta
+                out.append(lit(v < 0 or (v == 0 and neg and delta == 0), abs(v), f + extra))
+    out += [lit(False, 0, 0), lit(True, 1, 3), lit(False, rnd.randint(0, 10 ** 6), rnd.randint(0, 4)), lit(True, 10 ** 25, 0), lit(False, 10 ** 25, 2)]
+    seen, res = set(), []
+    for o in out:
+        if o not in seen:
+            seen.add(o)
+            res.append(o)
+    return res
+
+
+def random_ddesc(rnd):
+    n = rnd.randint(1, 4)
+    mode = rnd.random()
+    if mode < 0.5:
+        pool = sorted(set(rnd.randint(-4000, 4000) for _ in range(2 * n + 4)))
+        pool = [(v, 2) for v in pool]
+    elif mode < 0.8:
+        pool = sorted(set(rnd.randint(-50, 50) for _ in range(2 * n + 4)))
+        pool = [(v, 0) for v in pool]
+    else:
+        pool = sorted(set(rnd.choice([1, -1]) * rnd.choice([10 ** 5, 10 ** 12, 10 ** 19, 10 ** 25]) + rnd.randint(-3, 3) for _ in range(2 * n + 6)))
+        pool = [(v, 6) for v in pool]
+
+    def mk(vf):
+        v, f = vf
+        # the same number may be written with more fraction digits (trailing zeros)
+        extra = rnd.choice([0, 0, 0, 1, 2])
+        return lit(v < 0, abs(v) * 10 ** extra, f + extra)
+
+    items, i = [], 0
+    for k in range(n):
+        if i + 1 >= len(pool):
+            break
+        kind = rnd.choice("sccc")
+        if k == 0 and rnd.random() < 0.25:
+            items.append(("u", mk(pool[i]))); i += 1
+        elif k == n - 1 and rnd.random() < 0.25:
+            items.append(("f", mk(pool[i]))); i += 1
+        elif kind == "s":
+            items.append(("s", mk(pool[i]))); i += 1
+        else:
+            items.append(("c", mk(pool[i]), mk(pool[i + 1]))); i += 2
+    if rnd.random() < 0.3:
+        rnd.shuffle(items)
+    if rnd.random() < 0.06 and items:
+        items.append(items[0])   # overlapping on purpose: outside the statement
+    return items
+
+
+def check_decimal_cases(ctx, cases):
+    """cases: list of (items, spells, probe literals)"""
+    spec_lines = [line("drange.spec", ";".join(ditem_str(i) for i in items) or "~", ";".join("%s/%s" % (sp[0], ",".join(str(p) for p in sp[1])) for sp in spells) or "~",
+                       ",".join(vals)) for items, spells, vals in cases]
+    spec_out = core.run_driver(spec_lines)
+    parsed = []
+    for o in spec_out:
+        _, kv = parse_kv("x " + o)
+        parsed.append(kv)
+    model_lines = [line("drange.model", kv["text"], kv["vtexts"]) for kv in parsed]
+    model_out = core.run_driver(model_lines)
+    for (items, spells, vals), skv, so, mo in zip(cases, parsed, spec_out, model_out):
+        text = core.dec(skv["text"])
+        vtexts = [core.dec(v) for v in skv["vtexts"].split(",")] if skv["vtexts"] else []
+        mtag, mkv = parse_kv(mo)
+        itag, ival = impl_drange(text, vtexts)
+        wf = skv["wf"] == "1"
+        case = {"text": text, "items": [ditem_str(i) for i in items], "values": vtexts, "spec": so, "model": mo, "impl": itag if ival is None else ival}
+        ctx.count(key=("decimal", text, tuple(vals)), nontrivial=len(items) > 0, branch=("dwf:" if wf else "dnwf:") + mtag)
+        ctx.sample(case)
+        if mtag == "unsupported":
+            ctx.skip(case)
+            if wf:
+                ctx.machinery_error("decimal model leaves its fragment on a well-formed description: %r" % text)
+            continue
+        impl_repr = itag if ival is None else "ok items=%s lo=%s hi=%s bits=%s" % (ival["items"], ival["lo"], ival["hi"], ival["bits"])
+        model_repr = mtag if mtag != "ok" else "ok items=%s lo=%s hi=%s bits=%s" % (mkv.get("items"), mkv.get("lo"), mkv.get("hi"), mkv.get("bits"))
+        if wf:
+            spec_repr = "ok items=%s lo=%s hi=%s bits=%s" % (skv["items"], skv["lo"], skv["hi"], skv["bits"])
+            if model_repr != spec_repr:
+                ctx.machinery_error("decimal model != spec on a well-formed description: %r model=%s spec=%s" % (text, model_repr, spec_repr))
+            if impl_repr != spec_repr:
+                if ival is None:
+                    kind = "rejects-wellformed:" + itag
+                elif ival["items"] != skv["items"]:
+                    kind = "items"
+                elif ival["bits"] != skv["bits"]:
+                    kind = "membership"
+                else:
+                    kind = "limits"
+                ctx.violation("C01:decimal:%s:%d[%s]" % (kind, len(items), "".join(sorted(set(i[0] for i in items)))),
+                              "DecimalRange(%r): implementation %s, specification %s" % (text, impl_repr, spec_repr), case)
+            elif ival is not None and (str(ival["prec"]), str(ival["scale"])) != (mkv.get("prec"), mkv.get("scale")):
+                ctx.note_drift(case)
+        elif impl_repr != model_repr:
+            ctx.note_drift(case)
+
+
+def decimal_cases(ctx):
+    rnd = ctx.rnd
+    cases = []
+    pool = [lit_of_text(t) for t in ("-1.5", "-1", "-0.5", "0", "0.25", "1", "1.50", "2")]
+    smalls = [("s", v) for v in pool] + [("c", a, b) for a in pool for b in pool if lit_value(a) <= lit_value(b)] + [("f", v) for v in pool] + [("u", v) for v in pool]
+    probes = [lit_of_text(t) for t in ("-2", "-1.51", "-1.5", "-1.50", "-1.49", "-1", "-0.5", "-0.0", "0", "0.24", "0.25", "0.250", "0.26", "1", "1.0", "1.5", "1.500", "1.51", "2", "2.01")]
+    plain = ("d", [0] * 5)
+    for a in smalls:
+        for sep in "dce":
+            cases.append(([a], [(sep, [0] * 5)], probes))
+    pairs = [(a, b) for a in smalls for b in smalls]
+    step = 1 if ctx.tier == "thorough" else 7
+    for k in range(0, len(pairs), step):
+        a, b = pairs[k]
+        cases.append(([a, b], [plain, plain], probes))
+    n_exh = len(cases)
+    for _ in range(1500 if ctx.tier == "quick" else 20000):
+        items = random_ddesc(rnd)
+        spells = [(rnd.choice("dce"), [0] * 5 if rnd.random() < 0.5 else [rnd.choice([0, 0, 1, 2]) for _ in range(5)]) for _ in items]
+        cases.append((items, spells, probe_lits(items, rnd)))
+    ctx.notes["decimal_small_cases"] = n_exh
+    for i in range(0, len(cases), 10000):
+        check_decimal_cases(ctx, cases[i:i + 10000])
+
+
 def run(ctx):
     rnd = ctx.rnd
     ctx.rule = ("exhaustive: all 1-2 item descriptions with limits in {-2..2, none} x 3 separators x values -4..4 (plain decimal spelling); "
                 "grammar stream: 1-4 items, every limit spelling (decimal, hex, quoted, symbolic), separators, blanks, magnitudes up to 10^30, "
-                "probes = every boundary and its neighbours; distinct = distinct (text, probe list); non-trivial = at least one item")
+                "probes = every boundary and its neighbours; decimal ranges: all 1 item and a seventh (thorough: all) of the 2 item descriptions over 8 decimal limits x 20 probe values, "
+                "and a grammar stream of 1-4 items with 0-6 fraction digits, trailing zeros, magnitudes up to 10^25, blanks, three separators, probes = every limit, one unit in the last "
+                "place and one place finer on either side, the same number at another scale; distinct = distinct (text, probe list); non-trivial = at least one item")
     cases = []
     smalls = small_items()
     values = list(range(-4, 5))
@@ -221,6 +411,7 @@ def run(ctx):
     ctx.notes["exhaustive_part"] = "1-2 item sweep is complete and seed independent; the grammar stream is sampled"
     for i in range(0, len(cases), 20000):
         check_cases(ctx, cases[i:i + 20000])
+    decimal_cases(ctx)
     # the hypothesis `BoundedLimits` of C01_parse_render: CPython's int() refuses decimal strings of more than 4300 digits
     for ndigits, inside in ((4300, True), (4301, False)):
         text = "1..." + "9" * ndigits
